@@ -447,6 +447,14 @@ static Boolean DecodeRegList(tStrComp const* pArg, Boolean BitRev, Byte* pResult
     *pResult = 0;
     StrCompRefRight(&Part, pArg, 1);
     StrCompShorten(&Part, 1);
+
+    /* An empty list is valid and common (ENTER [],n sets up a frame without saving
+       any register): */
+
+    KillPrefBlanksStrCompRef(&Part);
+    if (!*Part.str.p_str) {
+        return True;
+    }
     while (True) {
         KillPrefBlanksStrCompRef(&Part);
         pSep = strchr(Part.str.p_str, ',');
